@@ -272,7 +272,9 @@ def _load_file(
 
     try:
         logger.info(f"Loading config from {file_path.as_uri()}")
-        with file_path.open("r") as fh:
+        # Undecodable bytes are kept as surrogate escapes, like in the defaults
+        # (see read()) and in config values, instead of raising UnicodeDecodeError.
+        with file_path.open("r", errors="surrogateescape") as fh:
             parser.read_file(fh)
     except configparser.MissingSectionHeaderError:
         logger.warning(
